@@ -59,6 +59,35 @@ def make_fit_file(ctx, rng, d, n_rec, with_fluxes, n_models=None, many=False):
     return out, kw
 
 
+WRITE_ENDS = []
+
+
+def install(ctx):
+    """post-condition probe on FitInfoFile.write: the position of the output handle after each record has been handed
+    over.  This is how "the records that had been written" is *observed* at the writing boundary, without assuming
+    anything about the on-disk layout (the only assumption is append-only writing, which the strace run observes)."""
+    from sedfitter.fit_info import FitInfoFile
+
+    def write_post(self, info, result):
+        ctx.event('FitInfoFile.write:post')
+        try:
+            WRITE_ENDS.append(int(self._handle.tell()))
+        except Exception:
+            WRITE_ENDS.append(None)
+        return True
+
+    probe.attach(FitInfoFile, 'write', ensure=write_post)
+
+
+def observed_record_ends(fn, *a, **k):
+    """run fn (which writes one fit file through the code under test) and return (result, record end offsets)"""
+    del WRITE_ENDS[:]
+    res = fn(*a, **k)
+    ends = list(WRITE_ENDS)
+    del WRITE_ENDS[:]
+    return res, ends
+
+
 def record_offsets(path):
     """end offsets of the three metadata pickles and of every record (plain pickle, not the code under test)"""
     ends = []
@@ -118,15 +147,16 @@ def judge(ctx, got, exc, full, n_complete, wit, keyp):
 
 def run(ctx):
     rng = ctx.rng
+    install(ctx)
     ctx.rule = ('files written by the real fit() holding 1..4 records of varying size, with and without stored predicted fluxes; every truncation offset '
                 '0..len-1 (exhaustive, partitioned over shards); writer-side faults: ENOSPC after N bytes (N over a stride), SIGKILL at random times, one '
                 'strace of the output fd. a case = one truncated read; non-trivial = offset beyond the metadata')
     ctx.exhaustive = True
     ctx.extra['exhaustive_subspace'] = 'truncation offsets 0..len-1 of every generated file'
     ctx.assume('a crash leaves a byte prefix of the file (supported by the strace observation: only sequential write()s on the output fd, no seek/truncate/rename)',
-               'complete records are located with plain pickle, not with the code under test', 'a clean end after fewer records than were complete is an exact prefix and is accepted')
-    ctx.require_events('truncated-read', 'outcome:exception', 'outcome:clean-end', 'enospc-run')
-    ctx.require_regimes('with-fluxes', 'without-fluxes', 'records=1', 'records>=3', 'cut:in-metadata', 'cut:in-record', 'cut:on-boundary')
+               'the end offset of every record is observed at the writing boundary (position of the output handle after each FitInfoFile.write), so nothing is assumed about the on-disk layout', 'a clean end after fewer records than were complete is an exact prefix and is accepted')
+    ctx.require_events('truncated-read', 'outcome:exception', 'outcome:clean-end', 'enospc-run', 'FitInfoFile.write:post')
+    ctx.require_regimes('with-fluxes', 'without-fluxes', 'records=1', 'records>=3', 'cut:before-first-record-complete', 'cut:in-later-record', 'cut:on-boundary')
     n_files = 4 if ctx.quick else 60
     for ifile in range(n_files):
         n_rec = [1, 3, 2, 4][ifile % 4]
@@ -134,21 +164,24 @@ def run(ctx):
         d = ctx.newdir('c19')
         frng = np.random.default_rng([ctx.seed, 19, ifile])         # same files in every shard: offsets are partitioned
         try:
-            path, kw = make_fit_file(ctx, frng, d, n_rec, with_fluxes)
+            (path, kw), rec_ends = observed_record_ends(make_fit_file, ctx, frng, d, n_rec, with_fluxes)
         except Exception as exc:
             ctx.violation('fit-raised', 'fit() raised while producing the file: %r' % (exc,), {'n_rec': n_rec})
             continue
         full = read_all(path)
-        meta_end, rec_ends = record_offsets(path)
         size = os.path.getsize(path)
-        if len(full) != n_rec or len(rec_ends) != n_rec:
-            ctx.violation('setup:records', 'file does not hold one record per source', {'n_rec': n_rec, 'read': len(full)})
+        if len(full) != n_rec:
+            ctx.violation('complete-file:records', 'the complete file does not read back one record per source', {'n_rec': n_rec, 'read': len(full)})
             continue
+        if len(rec_ends) != n_rec or any(e is None for e in rec_ends) or rec_ends != sorted(rec_ends) or rec_ends[-1] != size:
+            ctx.inconclusive('write-side observation failed: record ends %r for %d records, file size %d' % (rec_ends, n_rec, size))
+            continue
+        meta_end = 0          # (the metadata is written together with the first record: no layout knowledge is used)
         ctx.regime('with-fluxes' if with_fluxes else 'without-fluxes')
         ctx.regime('records=1' if n_rec == 1 else ('records>=3' if n_rec >= 3 else 'records=2'))
         work = os.path.join(d, 'trunc.out')
         shutil.copyfile(path, work)
-        wit0 = {'file': ifile, 'n_records': n_rec, 'with_fluxes': with_fluxes, 'size': size, 'meta_end': meta_end, 'record_ends': rec_ends}
+        wit0 = {'file': ifile, 'n_records': n_rec, 'with_fluxes': with_fluxes, 'size': size, 'record_ends': rec_ends}
         for t in range(size - 1, -1, -1):
             os.truncate(work, t)
             if not ctx.mine(t):
@@ -157,12 +190,10 @@ def run(ctx):
             got, exc = read_truncated(work)
             ctx.event('truncated-read')
             ctx.event('outcome:exception' if exc is not None else 'outcome:clean-end')
-            ctx.regime('cut:in-metadata' if t < meta_end else ('cut:on-boundary' if t in rec_ends or t == meta_end else 'cut:in-record'))
+            ctx.regime('cut:before-first-record-complete' if t < rec_ends[0] else ('cut:on-boundary' if t in rec_ends else 'cut:in-later-record'))
             wit = dict(wit0, offset=t, exception=repr(exc)[:120])
             judge(ctx, got, exc, full, n_complete, wit, 'truncated')
-            if t < meta_end and exc is None:
-                ctx.violation('truncated:metadata-accepted', 'a file cut inside its metadata was read without an error', wit)
-            ctx.case((ifile, t), nontrivial=t > meta_end,
+            ctx.case((ifile, t), nontrivial=t >= rec_ends[0] // 2,
                      sample=dict(wit, yielded=len(got), complete=n_complete) if (t == rec_ends[0] + 7 and len(ctx.samples) < 2) else None)
 
         # ---- ENOSPC after N bytes on the writing side -----------------------------------
@@ -216,7 +247,7 @@ def run(ctx):
             n_complete = sum(1 for e in rec_ends if e <= len(blob))
             got, exc = read_truncated(out2)
             judge(ctx, got, exc, full, n_complete, dict(wit0, N=N, on_disk=len(blob), exception=repr(exc)[:120]), 'enospc')
-            ctx.case(('enospc', ifile, N), nontrivial=len(blob) > meta_end)
+            ctx.case(('enospc', ifile, N), nontrivial=len(blob) > rec_ends[0] // 2)
             os.remove(out2)
         ctx.rmdir(d)
 
@@ -239,21 +270,20 @@ fit(**kw)
 
 def big_job(ctx, rng, d, n_src):
     """a fit() job with many sources, to be run in a child process"""
-    out, kw = make_fit_file(ctx, rng, d, n_src, True, n_models=6, many=True)
+    (out, kw), ends = observed_record_ends(make_fit_file, ctx, rng, d, n_src, True, n_models=6, many=True)
     ref = read_all(out)
     kwp = os.path.join(d, 'kw.pkl')
     out2 = os.path.join(d, 'child.out')
     kw2 = dict(kw, output=out2)
     with open(kwp, 'wb') as f:
         pickle.dump(kw2, f)
-    return kwp, out2, ref, out
+    return kwp, out2, ref, out, ends
 
 
 def sigkill_runs(ctx, rng):
     for it in range(6):
         d = ctx.newdir('kill')
-        kwp, out2, ref, out = big_job(ctx, rng, d, 400)
-        _, rec_ends = record_offsets(out)
+        kwp, out2, ref, out, rec_ends = big_job(ctx, rng, d, 400)
         env = dict(os.environ, PYTHONPATH='')
         p = subprocess.Popen([sys.executable, '-B', '-c', CHILD, kwp], stdin=subprocess.DEVNULL,
                              stdout=subprocess.DEVNULL, stderr=subprocess.DEVNULL, env=env, cwd=d)
@@ -283,7 +313,7 @@ def sigkill_runs(ctx, rng):
 
 def strace_run(ctx, rng):
     d = ctx.newdir('strace')
-    kwp, out2, ref, out = big_job(ctx, rng, d, 40)
+    kwp, out2, ref, out, _ends = big_job(ctx, rng, d, 40)
     log = os.path.join(d, 'strace.log')
     env = dict(os.environ, PYTHONPATH='')
     try:
